@@ -158,6 +158,24 @@ pub fn destruct<H: BuildHasher>(
 					)?;
 				}
 			}
+
+			// `...rest`: the object without the destructured fields
+			if let Some(jrsonnet_ir::DestructRest::Keep(v)) = rest {
+				let full = full.clone();
+				let taken: Vec<IStr> = fields.iter().map(|f| f.0.clone()).collect();
+				destruct(
+					&Destruct::Full(v.clone()),
+					Thunk!(move || {
+						let full = full.evaluate()?;
+						let mut out = crate::ObjValueBuilder::new();
+						out.with_super(full)
+							.with_fields_omitted(taken.iter().cloned().collect());
+						Ok(Val::Obj(out.build()))
+					}),
+					fctx.clone(),
+					new_bindings,
+				)?;
+			}
 		}
 	}
 	Ok(())
